@@ -4,6 +4,7 @@ import (
 	"fmt"
 	"sort"
 	"strings"
+	"sync"
 )
 
 // Hash-consed QF_BV/Bool terms with eager simplification.
@@ -61,7 +62,11 @@ func mask(w int) uint64 {
 	return (uint64(1) << uint(w)) - 1
 }
 
+var internMu sync.Mutex
+
 func intern(t *Term) *Term {
+	internMu.Lock()
+	defer internMu.Unlock()
 	var sb strings.Builder
 	fmt.Fprintf(&sb, "%d:%d:%d:%s", t.op, t.w, t.val, t.name)
 	for _, a := range t.args {
@@ -258,7 +263,7 @@ func liftable(t *Term) bool {
 	return ok
 }
 
-const maxLeaves = 48
+const maxLeaves = 160
 
 type leafSet struct {
 	vals  []uint64
@@ -271,9 +276,14 @@ var leafMemo = map[int]*leafSet{}
 // enumLeaves returns, for an ite tree with constant leaves, the distinct values and the condition under
 // which the term takes each of them (value-enumeration normal form); ok=false if it is not such a tree
 // or has too many distinct values.
+var leafMu sync.Mutex
+
 func enumLeaves(t *Term) (*leafSet, bool) {
-	if ls, ok := leafMemo[t.id]; ok {
-		return ls, ls.ok
+	leafMu.Lock()
+	ls0, ok0 := leafMemo[t.id]
+	leafMu.Unlock()
+	if ok0 {
+		return ls0, ls0.ok
 	}
 	ls := &leafSet{}
 	switch t.op {
@@ -307,7 +317,9 @@ func enumLeaves(t *Term) (*leafSet, bool) {
 			ls.ok = len(ls.vals) <= maxLeaves
 		}
 	}
+	leafMu.Lock()
 	leafMemo[t.id] = ls
+	leafMu.Unlock()
 	return ls, ls.ok
 }
 
@@ -350,7 +362,7 @@ func bin(op Op, a, b *Term, w int, f func(x, y uint64) uint64) *Term {
 	if (a.IsConst() || a.op == OIte) && (b.IsConst() || b.op == OIte) {
 		la, oka := enumLeaves(a)
 		lb, okb := enumLeaves(b)
-		if oka && okb && len(la.vals)*len(lb.vals) <= 256 {
+		if oka && okb && len(la.vals)*len(lb.vals) <= 1024 {
 			var vals []uint64
 			var conds []*Term
 			for i, x := range la.vals {
@@ -925,7 +937,36 @@ func badLeaves(t *Term, out map[int]*Term) {
 	case OIte:
 		badLeaves(t.args[1], out)
 		badLeaves(t.args[2], out)
+	case OAdd, OSub, OSlt, OUlt, OSext, OZext, OExtract:
+		n := len(out)
+		for _, a := range t.args {
+			badLeaves(a, out)
+		}
+		if len(out) == n {
+			out[t.id] = t // all leaves constant, yet not folded: too many distinct values?
+		}
 	default:
 		out[t.id] = t
 	}
+}
+
+// sizeBound: for an allocation size term returns the largest plausible value (0..1<<20) and the condition
+// under which the size is outside that range (negative or absurd: a run-time panic in Go).
+func sizeBound(t *Term) (uint64, *Term, bool) {
+	ls, ok := enumLeaves(t)
+	if !ok {
+		return 0, nil, false
+	}
+	var m uint64
+	bad := False
+	for i, v := range ls.vals {
+		if v > 1<<20 {
+			bad = Or(bad, ls.conds[i])
+			continue
+		}
+		if v > m {
+			m = v
+		}
+	}
+	return m, bad, true
 }
